@@ -87,18 +87,21 @@ func Harness_C11_table() {
 }
 
 // Harness_C11_shapes: larger concrete tables: multi-block object index, one object in many ref blocks (position list omitted because it does not fit), aligned and unaligned, no index.
-// bounds: shapes: 12 refs/3 objects aligned bs 96; 40 refs/5 objects unaligned bs 64; 130 refs all pointing at one object, aligned bs 64 (truncated position list); 30 refs with SkipIndexObjects; queries: every object of the table, a peeled object, and an absent id (first byte symbolic)
+// bounds: shapes: 12 refs/3 objects aligned bs 96; 40 refs/5 objects unaligned bs 64; 130 refs all pointing at one object, aligned bs 64 (truncated position list); 30 refs with SkipIndexObjects; 70 and 170 refs with 180-byte names pointing at one object, bs 256 (one ref per block: a complete position list of 70 entries, and a list of 170 that does not fit and is omitted); queries: every object of the table, a peeled object, and an absent id (first byte symbolic)
 // covers: done
 func Harness_C11_shapes() {
 	type sh struct {
 		n, objs int
 		cfg     Config
+		pad     int // names are padded to this length: one ref per block
 	}
 	shapes := []sh{
-		{12, 3, Config{BlockSize: 96}},
-		{40, 5, Config{BlockSize: 64, Unaligned: true, RestartInterval: 1}},
-		{130, 1, Config{BlockSize: 64}},
-		{30, 4, Config{BlockSize: 64, SkipIndexObjects: true}},
+		{12, 3, Config{BlockSize: 96}, 0},
+		{40, 5, Config{BlockSize: 64, Unaligned: true, RestartInterval: 1}, 0},
+		{130, 1, Config{BlockSize: 64}, 0},
+		{30, 4, Config{BlockSize: 64, SkipIndexObjects: true}, 0},
+		{70, 1, Config{BlockSize: 256}, 180},  // one object in 70 ref blocks: a position list of 70 entries that still fits its block
+		{170, 1, Config{BlockSize: 256}, 180}, // one object in 170 ref blocks: the list does not fit and is omitted
 	}
 	s := shapes[VerifChoose(len(shapes))]
 	var refs []RefRecord
@@ -110,6 +113,9 @@ func Harness_C11_shapes() {
 	}
 	for i := 0; i < s.n; i++ {
 		r := RefRecord{RefName: string([]byte{'A' + byte(i/26), 'a' + byte(i%26)}), UpdateIndex: 7 + uint64(i%3), Value: oid(i % s.objs)}
+		for len(r.RefName) < s.pad {
+			r.RefName += "x"
+		}
 		if i%5 == 4 {
 			r.TargetValue = oid(9)
 		}
